@@ -333,12 +333,22 @@ func ruleDispatchById(c *Ctx, rule string) {
 			continue
 		}
 		n++
-		snd := u.instr.(*ssa.Send)
+		var sndChan, sndX ssa.Value
+		switch x := u.instr.(type) {
+		case *ssa.Send:
+			sndChan, sndX = x.Chan, x.X
+		case *ssa.Select: // the send is one arm of a select
+			for _, st := range x.States {
+				if st.Chan == u.ch && st.Send != nil {
+					sndChan, sndX = st.Chan, st.Send
+				}
+			}
+		}
 		ok, why := false, "channel operand is not a lookup in the handlers registry"
-		if ex, isEx := snd.Chan.(*ssa.Extract); isEx {
+		if ex, isEx := sndChan.(*ssa.Extract); isEx && sndX != nil {
 			if lk, isLk := ex.Tuple.(*ssa.Lookup); isLk {
 				if fk, isF := mapField(lk.X); isF && fk.String() == "client.RpcMultiplexer.handlers" {
-					kp, vp := p.lpath(lk.Index), p.lpath(snd.X)+".Id"
+					kp, vp := p.lpath(lk.Index), p.lpath(sndX)+".Id"
 					ok = kp == vp
 					why = fmt.Sprintf("lookup key %s; Id of the value sent %s", kp, vp)
 				}
